@@ -1,6 +1,12 @@
 //! Violations, signatures, known findings, evidence and replay files.
 
 use serde_json::{json, Map, Value};
+
+macro_rules! outln {
+    ($($a:tt)*) => {
+        crate::out(&format!($($a)*))
+    };
+}
 use std::{collections::BTreeMap, path::PathBuf, time::Instant};
 
 /// One way in which the property was seen to fail.
@@ -237,19 +243,19 @@ impl Report {
         }
 
         for (sig, what, n) in &matched {
-            println!(
+            outln!(
                 "KNOWN-FINDING: property={} {} [signature {} seen {}x]",
                 self.property, what, sig, n
             );
         }
         if !self.machinery_errors.is_empty() {
             for m in &self.machinery_errors {
-                println!("MACHINERY-ERROR property={} {}", self.property, m);
+                outln!("MACHINERY-ERROR property={} {}", self.property, m);
             }
             return 2;
         }
         if unknown.is_empty() {
-            println!(
+            outln!(
                 "OK property={} tier={} wall={:.1}s {}",
                 self.property,
                 self.tier,
@@ -259,7 +265,7 @@ impl Report {
             0
         } else {
             for (sig, v, _, n) in &unknown {
-                println!(
+                outln!(
                     "VIOLATION property={} replay={} signature={} occurrences={} detail={}",
                     self.property,
                     replay_paths[sig].display(),
